@@ -136,10 +136,9 @@ Lemma w3_facts :
   /\ chks (h_cat w3_after) = [Chk pa "a" "maint" "" "" 7 3 3].
 Proof. vm_compute. repeat split; reflexivity. Qed.
 
-(* ---- witness 4: mesh-topology rows of the local cluster are rewritten ----
-   local:    sidecar of web on node l1 with upstream db  => row (db -> web, refs {l1/web-proxy})
-   received: a connect-proxy for destination web naming upstream db
-   updateMeshTopology has no peer in its key and (variable shadowing) replaces the row. *)
+(* ---- former witness 4 (fixed in /repo by acb191c + e4a855c): an imported connect-proxy that
+   names upstreams used to rewrite the mesh-topology row of a local sidecar; updateMeshTopology
+   now returns at once for an imported instance and the row is kept ---- *)
 Definition w4_before : cat :=
   Cat [Node "" "l1" "" 5] [Svc "" "l1" "web-proxy" "web-proxy" 7 4 1 false "web" ["db"] false] []
       [Topo "db" "web" ["l1/web-proxy"]].
@@ -148,9 +147,9 @@ Definition w4_export : list inst :=
 Definition w4_after := handle_update_service id_shuffles w4_before pa "web-sidecar-proxy" (Some w4_export).
 
 Lemma w4_facts :
-  h_err w4_after = None /\ topo w4_before = [Topo "db" "web" ["l1/web-proxy"]]
-  /\ topo (h_cat w4_after) = [Topo "db" "web" ["r1/px"]].
-Proof. vm_compute. repeat split; reflexivity. Qed.
+  h_err w4_after = None /\ In (Svc pa "r1" "px" "web-sidecar-proxy" 7 4 1 false "web" ["db"] false) (svcs (h_cat w4_after))
+  /\ topo (h_cat w4_after) = topo w4_before.
+Proof. vm_compute. repeat split; auto. Qed.
 
 (* ---- witness 5: a node rename takes the instances of OTHER services of the peer with it ----
    stored:   node a (ID X) with web1 (service web) and api1 (service api)
